@@ -287,6 +287,13 @@ def run(ctx):
         for n in walk_own(f.node):
             if isinstance(n, ast.Call) and call_name(n) in ("node", "DetachableElement", "PatchedText", "Element", "createElement", "createTextNode", "parseString", "InstanceInfo"):
                 problems.append(f"builds an XML node ({call_name(n)}(...)): the memoised object would be shared by every document that appends it")
+        # a memoised GENERATOR function caches the generator object: it yields once and is exhausted for every later caller
+        if any(isinstance(n, ast.Yield | ast.YieldFrom) for n in walk_own(f.node)):
+            problems.append("is a generator function: the cached generator object is exhausted after its first consumer (later renders get nothing)")
+        # a memoised function of an ELEMENT reads the element's cells, which may be edited between renders: the cache key (the
+        # element's identity) does not change with them
+        if any(p in ("element", "self") for p in params) and any(isinstance(n, ast.Attribute | ast.Subscript) and isinstance(n.value, ast.Name) and n.value.id in ("element", "self") for n in walk_own(f.node)):
+            problems.append("reads cells of the element it is keyed on: the key (identity) does not change when a cell does")
         ident_params = [p for p in params if p in ("survey", "self", "element", "context")]
         r2.check(not problems, f"{f.fq}", "memoised function only reads its parameters, immutable constants and files shipped with the package; no writes",
                  f.loc(), why_fail="; ".join(problems))
